@@ -53,7 +53,7 @@ def build_cases(scripts, group=GROUP):
             lines_c.append(f"lspec hcode {L.hexs(g['names_sx'])} {L.hexs(hn)} {hh}"); expect.append(hcode)
             lines_c.append("lspec const 0"); expect.append("0")
         unit = dict(script=sx(s["tree"]), lscr=g["lscr"], lnam=g["lnam"], names_sx=g["names_sx"], nhandlers=len(handlers),
-                    classes=[L.c03_classes(h[3:]) for h in handlers], skel=s.get("skel"))
+                    classes=[L.c03_classes(h[3:]) for h in handlers], skel=s.get("skel"), hsx=[sx(h) for h in handlers])
         units.append((s.get("kind", "skel"), unit, lines_c, expect))
     cases = []
     by_kind = {}
@@ -325,6 +325,17 @@ def extra_stage(ctx, driver, stats):
                 unpred_fail += 1
             else:
                 ok += 1
+    # the Lean predicate `exitClasses` (domain of C03_partial, lean/Drx/Spec/Supported.lean) must agree with the matcher side
+    hs = [(u, i) for c in getattr(cases, "last", []) for u in c.spec["scripts"] for i in range(u["nhandlers"])]
+    outs = L.ask_parallel(["lspec classes " + L.hexs(u["hsx"][i]) for u, i in hs])
+    lean_disagree = 0
+    for (u, i), o in zip(hs, outs):
+        want = ",".join(sorted(u["classes"][i])) or "-"
+        if o != want:
+            lean_disagree += 1
+            if lean_disagree <= 3:
+                ctx.failures.append(Failure("C", None, None, f"Lean Supported predicate disagrees with the matcher: lean={o} python={want} on {u['hsx'][i][:300]}"))
+    ctx.cov["supported_predicate"] = dict(handlers=len(hs), lean_vs_matcher_disagreements=lean_disagree)
     ctx.cov["class_prediction"] = dict(handlers_reconstructed_exactly=ok, in_class_and_failing=pred_fail, in_class_but_exact=pred_pass,
                                        failing_outside_every_class=unpred_fail, in_class_but_exact_examples=stale)
     if pred_pass:
